@@ -15,7 +15,7 @@ Import ListNotations.
 From RV Require Import Base.Bytes Model.Ckpt Model.Gc.
 Open Scope N_scope.
 
-Record hobs := mkHObs { h_id : N; h_dir : N; h_present : bool; h_wal : list fname; h_after : N; h_lastseq : N; h_tables : list fname; h_missing : list fname }.
+Record hobs := mkHObs { h_id : N; h_dir : N; h_sigs : list (fname * N); h_present : bool; h_wal : list fname; h_after : N; h_lastseq : N; h_tables : list fname; h_missing : list fname }.
 Record lobs := mkLObs { l_db : N; l_seq : N; l_latest : N; l_tables : list fname; l_missing : list fname }.
 Record robs := mkRObs { r_outcome : N; r_scan : list (bytes * bytes); r_gets : list (bytes * option bytes) }.
 Record obs := mkObs { o_files : list fname; o_read : option robs; o_handles : list hobs; o_live : list lobs;
@@ -59,7 +59,7 @@ Record spec := mkSpec {
   p_tasks : list (N * bool);                 (* checkpoint id -> WAL saved *)
   p_done : list (N * N);                     (* completed handles: id, directory *)
   p_dropped : list N;                        (* ids no longer retained *)
-  p_wals : list (N * fname);                 (* WAL file of each completed handle, as first seen in its document *)
+  p_wals : list (N * (fname * list (fname * N)));   (* WAL file of each completed handle, and the content hash of each of its files as first seen *)
   p_d11 : list (fname * bool);               (* files deleted by cleanups of table objects of dropped database objects; true = the dropped object had created the table *)
   p_nextdir : N }.
 
@@ -113,7 +113,7 @@ Definition spec_retain (p : spec) (d : N) (ids : list N) (f : N) : spec :=
   | None => p
   end.
 
-Definition spec_step (p : spec) (o : op) (restore_ok : bool) : spec :=
+Fixpoint spec_step (p : spec) (o : op) (restore_ok : bool) : spec :=
   match o with
   | OPut d k v _ => spec_write p d k (Some v)
   | ODel d k _ => spec_write p d k None
@@ -137,13 +137,16 @@ Definition spec_step (p : spec) (o : op) (restore_ok : bool) : spec :=
       let gone := if same then map fst (filter (fun h => (snd h =? hd) && negb (fst h =? id)) (p_done p)) else [] in
       mkSpec (p_dbs p ++ [x]) (p_snaps p) (p_tasks p) (p_done p) (p_dropped p ++ gone) (p_wals p) (p_d11 p)
              (if same then p_nextdir p else p_nextdir p + 1)
-  | ORestoreM _ id dirs ow _ =>
+  | ORestoreM _ id dirs same ow _ =>
       let m := flat_map (fun dir => match find (fun s => fst s =? hk id dir) (p_snaps p) with Some s => fst (snd s) | None => [] end) dirs in
       let sc' := [ow] in
-      let x := mkS (filter (fun kv => in_scope sc' (fst kv)) m) [id] sc' restore_ok (p_nextdir p) [] (map (hk id) dirs) in
-      mkSpec (p_dbs p ++ [x]) (p_snaps p) (p_tasks p) (p_done p) (p_dropped p) (p_wals p) (p_d11 p) (p_nextdir p + 1)
+      let dir := if same then hd 0 dirs else p_nextdir p in
+      let x := mkS (filter (fun kv => in_scope sc' (fst kv)) m) [id] sc' restore_ok dir [] (map (hk id) dirs) in
+      let gone := if same then map fst (filter (fun h => (snd h =? dir) && negb (fst h =? id)) (p_done p)) else [] in
+      mkSpec (p_dbs p ++ [x]) (p_snaps p) (p_tasks p) (p_done p) (p_dropped p ++ gone) (p_wals p) (p_d11 p) (if same then p_nextdir p else p_nextdir p + 1)
   | OOpen _ =>
       mkSpec (p_dbs p ++ [mkS [] [] [] true (p_nextdir p) [] []]) (p_snaps p) (p_tasks p) (p_done p) (p_dropped p) (p_wals p) (p_d11 p) (p_nextdir p + 1)
+  | OSeq a b => spec_step (spec_step p a restore_ok) b restore_ok
   | OCrash d | ODrop d =>
       match sget p d with
       | Some x => let p1 := sset p d (mkS (s_map x) (s_ids x) (s_scope x) false (s_dir x) (s_pend x) (s_srcs x)) in
@@ -161,11 +164,11 @@ Definition model_handle (w : world) (h : N * N) : hobs :=
   | Some (FCk docs) =>
       match find_doc docs id with
       | Some d => let ts := sort_names (map td_name (dc_tables d)) in
-                  mkHObs id dir true (dc_wal d :: dc_xw d) (dc_after d) (dc_lastseq d) ts
+                  mkHObs id dir [] true (dc_wal d :: dc_xw d) (dc_after d) (dc_lastseq d) ts
                          (sort_names (filter (fun n => negb (fs_has (g_fs w) n)) (dc_wal d :: dc_xw d ++ map td_name (dc_tables d))))
-      | None => mkHObs id dir false [] 0 0 [] []
+      | None => mkHObs id dir [] false [] 0 0 [] []
       end
-  | _ => mkHObs id dir false [] 0 0 [] []
+  | _ => mkHObs id dir [] false [] 0 0 [] []
   end.
 Fixpoint ins_handle (h : N * N) (l : list (N * N)) : list (N * N) :=
   match l with [] => [h] | y :: l' => if (fst h <? fst y) || ((fst h =? fst y) && (snd h <? snd y)) then h :: l else y :: ins_handle h l' end.
@@ -216,11 +219,11 @@ Definition d11_any (w : world) : list fname :=
                      | Dropped => map o_name (filter (cleanup_deletes w x) (x_objs x))
                      | _ => [] end) (g_dbs w).
 
-Definition check_step (st : world * spec) (so : op * obs) : (world * spec) * list N :=
+Definition check_step1 (st : world * spec) (so : op * obs) : (world * spec) * list N :=
   let '(w, p) := st in
   let '(o, ob) := so in
   let w' := step w o in
-  let restore_ok := match o, o_read ob with ORestore _ _ _ _ _, Some r | ORestoreM _ _ _ _ _, Some r => r_outcome r =? 0 | _, _ => false end in
+  let restore_ok := match o, o_read ob with ORestore _ _ _ _ _, Some r | ORestoreM _ _ _ _ _ _, Some r => r_outcome r =? 0 | _, _ => false end in
   let p0 := spec_step p o restore_ok in
   let p1 := match o with
             | OGc => mkSpec (p_dbs p0) (p_snaps p0) (p_tasks p0) (p_done p0) (p_dropped p0) (p_wals p0) (p_d11 p0 ++ map (fun n => (n, true)) (d11_created w) ++ map (fun n => (n, false)) (d11_any w)) (p_nextdir p0)
@@ -230,8 +233,16 @@ Definition check_step (st : world * spec) (so : op * obs) : (world * spec) * lis
      fault that should have failed it): it must restore exactly *)
   let done' := fold_left (fun acc h => if existsb (fun q => (fst q =? h_id h) && (snd q =? h_dir h)) acc then acc else acc ++ [(h_id h, h_dir h)]) (o_handles ob) (p_done p1) in
   let p' := mkSpec (p_dbs p1) (p_snaps p1) (p_tasks p1) done' (p_dropped p1)
-                   (fold_left (fun acc h => if h_present h && negb (existsb (fun q => fst q =? hk (h_id h) (h_dir h)) acc)
-                                            then match h_wal h with n :: _ => (hk (h_id h) (h_dir h), n) :: acc | [] => acc end else acc) (o_handles ob) (p_wals p1))
+                   (fold_left (fun acc h =>
+                      if h_present h then
+                        match h_wal h with
+                        | n :: _ =>
+                            let k := hk (h_id h) (h_dir h) in
+                            let old := match find (fun q => fst q =? k) acc with Some q => snd (snd q) | None => [] end in
+                            let fresh := filter (fun s => negb (mem_name (fst s) (map fst old))) (h_sigs h) in
+                            (k, (n, old ++ fresh)) :: filter (fun q => negb (fst q =? k)) acc
+                        | [] => acc end
+                      else acc) (o_handles ob) (p_wals p1))
                    (p_d11 p1) (p_nextdir p1) in
   let keys := match o_read ob with Some r => map fst (r_gets r) | None => [] end in
   (* ----- model comparisons ----- *)
@@ -249,8 +260,8 @@ Definition check_step (st : world * spec) (so : op * obs) : (world * spec) * lis
                     | RFail c => flag (r_outcome r =? c) 1
                     | ROpen x => flag (robs_eqb r (model_read w' x keys)) 1
                     end
-                | ORestoreM _ id dirs ow nb, Some r =>
-                    match open_fromM w id dirs (g_nextdir w) ow nb with
+                | ORestoreM _ id dirs same ow nb, Some r =>
+                    match open_fromM w id dirs (if same then hd 0 dirs else g_nextdir w) ow nb with
                     | RFail c => flag (r_outcome r =? c) 1
                     | ROpen x => flag (robs_eqb r (model_read w' x keys)) 1
                     end
@@ -267,6 +278,10 @@ Definition check_step (st : world * spec) (so : op * obs) : (world * spec) * lis
   let s_files := flat_map (fun h =>
                    if completed p' (h_id h) && retained p' (h_id h) then
                      flag (h_present h) 103 ++
+                     (match find (fun q => fst q =? hk (h_id h) (h_dir h)) (p_wals p) with
+                      | Some q => flag (forallb (fun s => match find (fun o => fname_eqb (fst o) (fst s)) (snd (snd q)) with
+                                                          | Some o => snd o =? snd s | None => true end) (h_sigs h)) 105
+                      | None => [] end) ++
                      (match h_missing h with [] => [] | ms => if subset_names ms d11 then [110] else [100] end)
                    else []) (o_handles ob) in
   let s_live := flat_map (fun l => match l_missing l with [] => [] | ms => if subset_names ms d11c then [111] else [101] end) (o_live ob) in
@@ -278,7 +293,7 @@ Definition check_step (st : world * spec) (so : op * obs) : (world * spec) * lis
                    | Some x, Some x' =>
                        flat_map (fun i => if memN i (s_ids x' ++ s_pend x') then [] else
                                    flat_map (fun k => match find (fun q => fst q =? k) (p_wals p') with
-                                                      | Some q => flag (negb (mem_name (snd q) (o_files ob))) 102
+                                                      | Some q => flag (negb (mem_name (fst (snd q)) (o_files ob))) 102
                                                       | None => [] end)
                                             (hk i (s_dir x) :: filter (fun k => k / 1000 =? i) (s_srcs x)))
                                 (s_ids x ++ s_pend x)
@@ -302,7 +317,7 @@ Definition check_step (st : world * spec) (so : op * obs) : (world * spec) * lis
                                if (r_outcome r =? 4) && negb (match miss with [] => true | _ => false end) && subset_names miss d11 then [14] else [10]
                          | None => [] end
                        else []
-                   | ORestoreM _ id dirs ow _, Some r =>
+                   | ORestoreM _ id dirs _ ow _, Some r =>
                        if forallb (fun dir => existsb (fun h => (fst h =? id) && (snd h =? dir)) (p_done p)) dirs && retained p id then
                          let m := flat_map (fun dir => match find (fun s => fst s =? hk id dir) (p_snaps p) with Some s => fst (snd s) | None => [] end) dirs in
                          let sc' := [ow] in
@@ -318,6 +333,14 @@ Definition check_step (st : world * spec) (so : op * obs) : (world * spec) * lis
                        | None => [] end
                    | _, _ => [] end in
   ((w', p'), c_rot ++ c_files ++ c_handles ++ c_live ++ c_read ++ c_gc ++ s_files ++ s_live ++ s_wal ++ s_during ++ s_restore).
+
+(* overlapping steps observed as one: all but the last are applied to the model and the oracle without observation *)
+Fixpoint check_seq (st : world * spec) (o : op) (ob : obs) : (world * spec) * list N :=
+  match o with
+  | OSeq a b => check_seq (step (fst st) a, spec_step (snd st) a false) b ob
+  | _ => check_step1 st (o, ob)
+  end.
+Definition check_step (st : world * spec) (so : op * obs) : (world * spec) * list N := check_seq st (fst so) (snd so).
 
 Fixpoint dedup (l : list N) : list N :=
   match l with [] => [] | x :: l' => if memN x l' then dedup l' else x :: dedup l' end.
